@@ -351,22 +351,24 @@ theorem braceParse_rejects_non_text (ds : Option (List Str)) (w : Int) (se : Boo
 /-- **`handle_ccp_brace_syntax(tmp_lines, syntax)`**: a syntax that is not valid and a `tmp_lines`
 that is neither list nor tuple are refused (`InvalidParameters`, the syntax first); for the
 indentation syntaxes the lines pass through unchanged, list or tuple; for junos a list is
-converted (`convert_junos_to_ios(lines, comment_delimiters=['#'])`, four blanks per level) and a
-tuple — which this method lets through — is refused by the converter (known finding FC08a). -/
+converted (`convert_junos_to_ios(lines, comment_delimiters=['#'])`, four blanks per level) and so is a
+tuple, with the same result.  (Before the repair `fix: CiscoConfParse accepts a tuple of lines with syntax='junos'`
+the tuple -- which this method lets through -- was refused by the converter with `InvalidParameters`: finding
+FC08a; `convert_junos_to_ios` called directly still insists on a `list`, `convert_argument_checks`.) -/
 theorem handleBrace_spec (ls : List Str) (tmp : Lines) (syn : Syn) :
     handleBrace .invalid tmp = .error .invalidParameters ∧
     handleBrace syn .other = .error .invalidParameters ∧
     handleBrace .indented (.list ls) = .ok ls ∧ handleBrace .indented (.tuple ls) = .ok ls ∧
     handleBrace .junos (.list ls) = liftE (junosToIos ls) ∧
-    handleBrace .junos (.tuple ls) = .error .invalidParameters := by
-  refine ⟨rfl, ?_, rfl, rfl, (options_default ls [] 0).2.1, rfl⟩
+    handleBrace .junos (.tuple ls) = liftE (junosToIos ls) := by
+  refine ⟨rfl, ?_, rfl, rfl, (options_default ls [] 0).2.1, (options_default ls [] 0).2.1⟩
   cases syn <;> rfl
 
 /-- **`ignore_blank_lines` and the factory.**  `junosParseWith ig` is the parse for
 `ignore_blank_lines = ig` (the factory only chooses the class of the line objects and has no
 parameter in the model).  Whatever is accepted: the texts are the converted lines, minus the blank
 ones when `ig` (a statement that is a lone `;` converts to a blank line), and the tree is a C03
-forest.  A tuple of lines is refused (FC08a). -/
+forest.  A tuple of lines is parsed like the list of the same lines (`junos_tuple_is_list`). -/
 theorem junos_options (ig : Bool) (lines : List Str) (t : T) (h : junosParseWith ig (.list lines) = .ok t) :
     ∃ out, junosToIos lines = .ok out ∧
       t.texts = (if ig then out.filter (fun l => !(strip l).isEmpty) else out) ∧
@@ -381,8 +383,12 @@ theorem junos_options (ig : Bool) (lines : List Str) (t : T) (h : junosParseWith
     subst h
     exact ⟨out, rfl, rfl, rfl, forest_of_inv ⟨rfl, linkByIndent_length _ _, linkByIndent_below _ _⟩⟩
 
-theorem junos_tuple_refused (ig : Bool) (ls : List Str) :
-    junosParseWith ig (.tuple ls) = .error .invalidParameters := rfl
+/-- **A tuple of lines is a config like the list of the same lines**: `CiscoConfParse(tuple_of_lines, syntax='junos',
+…)` is the parse of `list(tuple_of_lines)` for every option setting -- same refusals, same texts, same tree -- so
+`junos_options` and `junos_tree_any_options` hold for it verbatim.  (Before the repair of finding FC08a this was
+`junos_tuple_refused`: every tuple was refused with `InvalidParameters`.) -/
+theorem junos_tuple_is_list (ig : Bool) (ls : List Str) :
+    junosParseWith ig (.tuple ls) = junosParseWith ig (.list ls) := rfl
 
 /-- **The whole parse of a rendered tree does not depend on `ignore_blank_lines`**: a well-formed
 statement never converts to a blank line, so both settings give texts = flattening, parents = tree
@@ -397,6 +403,15 @@ theorem junos_tree_any_options (ig : Bool) (L : Layout) (T : List Stmt) (hT : Li
   have hf : (flatten T).filter (fun l => !(strip l).isEmpty) = flatten T :=
     List.filter_eq_self.mpr (fun l hl => by simp [flattenList_nonblank T 0 hT l hl])
   cases ig <;> simp only [liftE, if_true, if_false, Bool.false_eq_true, hf, (flatten_parent_shared T hT hc).1]
+
+/-- `junos_tree_any_options` for the tuple form: the whole parse of a rendered tree handed over as a tuple of lines
+is the statement tree, under either `ignore_blank_lines` setting. -/
+theorem junos_tree_tuple (ig : Bool) (L : Layout) (T : List Stmt) (hT : ListOk T) (hL : LayoutOk L)
+    (hc : ∀ l ∈ flatten T, isComment junosCfg l = false)
+    (lines : List Str) (hne : lines ≠ []) (hl : join ['\n'] lines = render L T) :
+    junosParseWith ig (.tuple lines) = .ok { texts := flatten T, parents := selfRoots 0 (treeParents T),
+                                             keep := (flatten T).map (fun _ => false) } :=
+  junos_tree_any_options ig L T hT hL hc lines hne hl
 
 /-! ### non-vacuity of this part -/
 
@@ -429,6 +444,11 @@ example : ((junosParseWith false (.list ["a {".toList, ";".toList, "b;".toList, 
     ((junosParseWith true (.list ["a {".toList, ";".toList, "b;".toList, "}".toList])).toOption.map (·.parents))
       = some [0, 0] := by decide +kernel
 example : (junosParseWith true (.list (splitOn '\n' (render exL exT)))).toOption.map (·.parents) = some [0, 0, 0, 2, 4, 5] := by
+  decide +kernel
+/-- the tuple form of the same lines gives the same tree (it was refused before the repair of FC08a) -/
+example : (junosParseWith true (.tuple (splitOn '\n' (render exL exT)))).toOption.map (·.parents) = some [0, 0, 0, 2, 4, 5] ∧
+    ((junosParseWith false (.tuple ["a {".toList, "b;".toList, "}".toList])).toOption.map (·.texts))
+      = some ["a".toList, "    b".toList] := by
   decide +kernel
 
 end Ccp.C08
